@@ -115,7 +115,25 @@ func After(d time.Duration) <-chan time.Time {
 	if w == nil {
 		return time.After(d)
 	}
-	return w.newChanTimer(d, 0).ch
+	t := w.newChanTimer(d, 0)
+	w.maybeDue(t, d)
+	return t.ch
+}
+
+// maybeDue: a timer created with no delay fires "at once", i.e. asynchronously and very soon: an operation
+// that follows immediately (typically a select with another ready case) may or may not find its value already
+// there. Both are explored (a data choice, so also in the one-schedule-per-program mode).
+func (w *World) maybeDue(t *vtimer, d time.Duration) {
+	if d > 0 || t.ch == nil {
+		return
+	}
+	if Choose(2, 0, "a timer with no delay has already fired") == 1 && w.removeTimer(t) {
+		c := w.vc(t.ch, chanID(t.ch), 1)
+		if len(c.buf) < 1 {
+			c.buf = append(c.buf, Epoch.Add(time.Duration(w.now)))
+			c.hash = mix(c.hash, uint64(t.seq), uint64(w.now))
+		}
+	}
 }
 
 // Sleep replaces time.Sleep.
@@ -146,6 +164,7 @@ func NewTimer(d time.Duration) *Timer {
 		return &Timer{C: n.C, nat: n}
 	}
 	t := w.newChanTimer(d, 0)
+	w.maybeDue(t, d)
 	return &Timer{C: t.ch, t: t}
 }
 
